@@ -59,11 +59,16 @@ func TestVerif(t *testing.T) {
 	r.Set("vclock_instrumented", env.vclock)
 	r.Set("yield_sites_instrumented", len(env.sites))
 
-	runGroupCases(t, r, env)
-	runBucketCases(t, r, env)
-	runPopulationCases(t, r, env)
-	runEndpointCases(t, r, env)
-	runRemoteCases(t, r, env)
+	timed := func(name string, f func(*testing.T, *rep.Reporter, instrEnv)) {
+		t0 := time.Now()
+		f(t, r, env)
+		r.Count("layer_wall_ms_"+name, time.Since(t0).Milliseconds()) // summed over shards; informational only
+	}
+	timed("group", runGroupCases)
+	timed("bucketset", runBucketCases)
+	timed("population", runPopulationCases)
+	timed("endpoint", runEndpointCases)
+	timed("remote", runRemoteCases)
 
 	verifkit.ResetYield()
 	verifkit.DisableVirtualClock()
